@@ -55,7 +55,13 @@ func (s *skel) block(depth, budget int) {
 		case 3: // for range
 			s.n++
 			v := fmt.Sprintf("i%d", s.n)
-			switch rapid.IntRange(0, 2).Draw(s.t, "rangeform") {
+			switch rapid.IntRange(0, 4).Draw(s.t, "rangeform") {
+			case 3: // a step that has no exact binary representation: both sides must count the same way
+				s.line(depth, "for %s := range 0 %s %s", v, rapid.SampledFrom([]string{"1", "0.5", "0.7"}).Draw(s.t, "fstop"), rapid.SampledFrom([]string{"0.1", "0.3", "0.05"}).Draw(s.t, "fstep"))
+				s.feats["fractional-step"] = true
+			case 4:
+				s.line(depth, "for %s := range 1 0 -%s", v, rapid.SampledFrom([]string{"0.1", "0.3", "0.7"}).Draw(s.t, "fstep"))
+				s.feats["fractional-step"] = true
 			case 0:
 				s.line(depth, "for %s := range %d", v, rapid.IntRange(0, 4).Draw(s.t, "stop"))
 			case 1:
